@@ -1414,9 +1414,11 @@ unsigned char* SZ_compress_customize(const char* cmprName, void* userPara, int d
 	else if(strcmp(cmprName, "SZ1.4")==0)
 	{
 		sz_maybe_init_with_user_params(userPara, confparams_cpr);
+		int confWithRegression = confparams_cpr->withRegression;
 		confparams_cpr->withRegression = SZ_NO_REGRESSION;
 
 		result = SZ_compress(dataType, data, outSize, r5, r4, r3, r2, r1);
+		confparams_cpr->withRegression = confWithRegression; //SZ1.4 is a property of this call, not of later ones
 		*status = SZ_SCES;
     }
     else if(strcmp(cmprName, "SZ_Transpose")==0)
